@@ -923,6 +923,16 @@ func (z *ZodStruct[T, R]) setReflectFieldValue(fieldVal reflect.Value, value any
 		return nil
 	}
 
+	// A pointer to the schema's own output type (*[]any for a *[]int32 field,
+	// *map[any]any for a *map[string]string field): convert what it points to
+	if fieldVal.Kind() == reflect.Pointer && valueVal.Kind() == reflect.Pointer {
+		target := reflect.New(fieldVal.Type().Elem())
+		if err := z.setReflectFieldValue(target.Elem(), valueVal.Elem().Interface()); err == nil {
+			fieldVal.Set(target)
+			return nil
+		}
+	}
+
 	// Handle map type conversions (e.g., map[any]any to map[string]string)
 	if fieldVal.Type().Kind() == reflect.Map && valueVal.Type().Kind() == reflect.Map {
 		if convertedMap := z.convertMapTypes(value, fieldVal.Type()); convertedMap != nil {
